@@ -815,7 +815,11 @@ func init() {
 				}
 				format = []string{"table", "json2"}[r.n(2)]
 			}
-			if i%64 == 13 {
+			heavy := 64 // one heavy case of each kind per 64 cases (per 512 in the thorough tier, which runs 50 times more cases)
+			if tier == "thorough" {
+				heavy = 512
+			}
+			if i%heavy == 13 {
 				// thousands of references with long names (a `for-each-ref` listing far above one pipe buffer) and, in
 				// exec, a hundred and fifty regular-expression refgroups that make the consumer of that listing slow: every
 				// reference must be seen on every run (seeded change C17k bounded the wait for the consumer: WaitDelay)
@@ -831,7 +835,7 @@ func init() {
 					roots = append(roots, 2)
 				}
 				format = "json1"
-			} else if i%64 == 29 {
+			} else if i%heavy == 29 {
 				// two versions of a directory with 34 000 entries: tree objects above 1 MiB that follow one another in
 				// the `cat-file --batch` stream (seeded change C17g reused one buffer for objects of 1 MiB and more)
 				objs = []gObj{{kind: 'b', size: 12}}
